@@ -483,6 +483,27 @@ func (e *env) run(kind string) (bool, string) {
 		case <-time.After(conns.WD):
 			return false, "nopong"
 		}
+	case "pingForgetNoRoute":
+		// the same probe on a connection whose writes start to fail after the first transmission (the route to the peer is gone,
+		// the shared socket still reads): the retransmissions cannot be written - the sweep gives the entry up all the same
+		if _, err := cc.AsyncPing(func() {}); err != nil {
+			return true, "err"
+		}
+		if _, ok := e.waitOut(func(d memnet.Dgram) bool { return d.Type == message.Confirmable && d.Code == int(codes.Empty) }); !ok {
+			return false, "noping"
+		}
+		e.u.Sess.FailNext.Store(1000)
+		for _, d := range []int{3, 5, 7, 9, 11, 13, 15} { // ACK_TIMEOUT 2 s, MAX_RETRANSMIT 2
+			cc.CheckExpirations(time.Now().Add(time.Duration(d) * time.Second))
+		}
+		e.u.Sess.FailNext.Store(0)
+		e.scan()
+		for i, d := range e.reqs {
+			if d.Type == message.Confirmable && d.Code == int(codes.Empty) {
+				e.taken[i] = true
+			}
+		}
+		return true, "forgotten"
 	case "pingForget":
 		// a fire-and-forget liveness probe: AsyncPing whose cancel function is never called, the peer stays silent - the
 		// housekeeping sweep is the only thing that ends its continuation (after the retransmissions are exhausted)
